@@ -392,8 +392,47 @@ class Explorer:
             return True
         if r == z3.unknown:
             raise Inconclusive(f"unknown on assertion {what}: {self.solver.reason_unknown()}")
+        # the model may rest on the uninterpreted abstraction of products / inverses /
+        # square roots: refine with their defining axioms for the terms at hand
+        ax = self._nonlinear_axioms(cond)
+        if ax:
+            self.solver.push()
+            self.solver.add(*ax)
+            r2 = self._check("q_assert", z3.Not(cond))
+            if r2 == z3.sat:
+                cex = self.extract_cex(what, detail)
+                self.solver.pop()
+                self.cexs.append(cex)
+                return False
+            reason = self.solver.reason_unknown() if r2 == z3.unknown else ""
+            self.solver.pop()
+            if r2 == z3.unsat:
+                self.stats.proved += 1
+                self.stats.refined = getattr(self.stats, "refined", 0) + 1
+                return True
+            raise Inconclusive(f"unknown on refined (non-linear) assertion {what}: {reason}")
         self.cexs.append(self.extract_cex(what, detail))
         return False
+
+    def _nonlinear_axioms(self, cond):
+        from .values import SMUL, INV, SQRTF
+        names = {SMUL.name(): "mul", INV.name(): "inv", SQRTF.name(): "sqrt"}
+        seen, out, todo = set(), [], list(self.solver.assertions()) + [cond]
+        while todo:
+            x = todo.pop()
+            if x.get_id() in seen:
+                continue
+            seen.add(x.get_id())
+            if z3.is_app(x):
+                k = names.get(x.decl().name()) if x.decl().kind() == z3.Z3_OP_UNINTERPRETED else None
+                if k == "mul":
+                    out.append(x == x.arg(0) * x.arg(1))
+                elif k == "inv":
+                    out.append(z3.Implies(x.arg(0) != 0, x * x.arg(0) == 1))
+                elif k == "sqrt":
+                    out.append(z3.And(x >= 0, z3.Implies(x.arg(0) >= 0, x * x == x.arg(0))))
+                todo.extend(x.children())
+        return out
 
     def fail(self, what, detail=None):
         """An unconditional failure on this path (e.g. unexpected exception)."""
